@@ -2,13 +2,14 @@
 (* Behaviour generation for the replayer (engine "trie", TestTrieReplay): Trie2 plus a history
    variable; see LegacyMBT.  Projection: present key/value pairs, the set of database paths after
    the step, the predicted orphans (database entries outside the canonical sparse trie). *)
-EXTENDS Trie2, Json
+EXTENDS Trie2, Json, FeltDomain
 
 CONSTANT MBTLen
-VARIABLE hist
-mbtvars == <<vars, hist>>
+VARIABLES hist,
+          mag    \* value-domain dimension (FeltDomain.tla): magnitude class of every abstract value, per behaviour
+mbtvars == <<vars, hist, mag>>
 
-MBTInit == Init /\ hist = <<>>
+MBTInit == Init /\ hist = <<>> /\ mag \in MagAssignments(Vals)
 
 R(S) == IF S = {} THEN {} ELSE {RandomElement(S)}
 FlipAt(k, i) == [k EXCEPT ![i] = 1 - @]
@@ -34,12 +35,13 @@ Proj == [pres |-> {[k |-> k, v |-> kv'[k]] : k \in PresentKeys(kv')},
          orphans |-> DOMAIN db' \ SparsePaths(ckv'),
          dead |-> dead']
 
-Step == SimNext /\ hist' = Append(hist, [a |-> act'] @@ Proj)
+Step == SimNext /\ hist' = Append(hist, [a |-> act', mag |-> mag] @@ Proj) /\ mag' = mag
 
 Emit ==
   /\ PrintT(ToJson(hist))
   /\ kv' = EmptyKV /\ ckv' = EmptyKV /\ root' = NilN /\ tr' = [ins |-> {}, del |-> {}]
   /\ db' = NoFn /\ dead' = FALSE /\ steps' = 0 /\ act' = [name |-> "Init"] /\ hist' = <<>>
+  /\ mag' \in R(MagAssignments(Vals))
 
 MBTNext == IF Len(hist) >= MBTLen THEN Emit ELSE Step
 =============================================================================
